@@ -18,6 +18,8 @@ type C10Handler struct {
 }
 
 type C10Case struct {
+	// ErrKind: the error value the failing transport returns (kit.FaultErrKinds)
+	ErrKind  string       `json:"err_kind,omitempty"`
 	Handlers []C10Handler `json:"handlers"`
 	Ending   string       `json:"ending"` // readfail | writefail | stop | servectx
 	Pos      int          `json:"pos"`    // readfail/stop/servectx: request envelopes delivered before the ending; writefail: index of the failing response write
@@ -33,6 +35,7 @@ var c10Stream = []string{"srecv", "sctx", "ssend", "sgate", "secho", "srst"}
 
 func genC10(t *rapid.T) C10Case {
 	c := C10Case{Ser: rapid.Bool().Draw(t, "ser")}
+	c.ErrKind = rapid.SampledFrom(kit.FaultErrKinds).Draw(t, "err_kind")
 	nu := rapid.IntRange(0, 8).Draw(t, "nu")
 	ns := rapid.IntRange(0, 8).Draw(t, "ns")
 	if nu+ns == 0 {
@@ -60,6 +63,7 @@ type c10Obs struct {
 }
 
 func execC10(t *testing.T, c C10Case) (v Verdict) {
+	defer kit.UseFaultKind(c.ErrKind)()
 	n := len(c.Handlers)
 	obs := make([]*c10Obs, n)
 	for i := range obs {
